@@ -165,8 +165,6 @@ def worker(item: Any, res: runner.Result) -> None:  # pylint: disable=too-many-l
             fb, ob = real[i], main_by_idx[i]
             if [(x.line, str(x)) for x in fb.instructions] != [(x.line, str(x)) for x in ob.instructions]:
                 res.violation("C12.block-text-or-lines-differ", item, path=list(pid), block=i)
-            if fb is ob or any(x is y for x in fb.instructions for y in ob.instructions):
-                res.violation("C12.function-shares-main-objects-with-contract", item, path=list(pid), block=i)
             act = []
             for n in fb.next:
                 if isinstance(n.instructions[0], TealerCustomErrInstruction):
